@@ -383,6 +383,40 @@ def execute(ctx, h):
                 loc = {a.name: a.default}
                 if not math.isclose(doc.map_backward(doc.map_forward(loc))[a.name], a.default, rel_tol=1e-9, abs_tol=1e-9) and not res.get("violation"):
                     fail("axis-map-inverse", "document map_backward(map_forward(default)) for %r" % a.name)
+        # history: the map is edited in place after it has been used (an editor moving a map point), and used
+        # again; the axis must answer like a new axis object holding the same map (replica oracle)
+        from fontTools.designspaceLib import AxisDescriptor
+
+        for a in doc.axes:
+            if not (info["monotone"].get(a.name) and hasattr(a, "minimum") and a.map):
+                continue
+            for step in range(3):
+                kind = r.choice(["scale", "shift", "append", "pop", "clear"])
+                if kind == "scale":
+                    for i, (u, d) in enumerate(a.map):
+                        a.map[i] = (u, d * 2 + 1)
+                elif kind == "shift":
+                    for i, (u, d) in enumerate(a.map):
+                        a.map[i] = (u, d + 10 * (i + 1))
+                elif kind == "append":
+                    u, d = max(a.map)
+                    a.map.append((u + 50, max(x[1] for x in a.map) + 70))
+                elif kind == "pop" and len(a.map) > 2:
+                    a.map.pop(len(a.map) // 2)
+                elif kind == "clear":
+                    a.map.clear()
+                fresh = AxisDescriptor(tag=a.tag, name=a.name, minimum=a.minimum, default=a.default, maximum=a.maximum, map=list(a.map))
+                probes["B.mapedit"] = probes.get("B.mapedit", 0) + 1
+                for _ in range(4):
+                    v = r.choice([a.minimum, a.default, a.maximum, round(r.uniform(a.minimum, a.maximum), 3)])
+                    f1, f2 = a.map_forward(v), fresh.map_forward(v)
+                    b1, b2 = a.map_backward(f2), fresh.map_backward(f2)
+                    if (f1 != f2 or b1 != b2) and not res.get("violation"):
+                        fail("axis-map-stale-after-in-place-edit", "axis %r after %s of its map in place (now %r): forward(%r) = %r, a new axis with this map gives %r; backward(%r) = %r vs %r" % (a.name, kind, a.map, v, f1, f2, f2, b1, b2))
+                    if not math.isclose(b1, v, rel_tol=1e-9, abs_tol=1e-6) and not res.get("violation"):
+                        fail("axis-map-inverse", "axis %r map %r (edited in place): backward(forward(%r)) = %r" % (a.name, a.map, v, b1))
+                if not a.map:
+                    break
     finally:
         shutil.rmtree(scratch, ignore_errors=True)
     if res.get("violation"):
